@@ -49,9 +49,33 @@ func twoCalls(cs *fw.Case, routine string, t elemT, fine, coarse string, inputs 
 	if inSitu {
 		n = 2
 	}
+	var kept []any
+	var keptSnap [][]float64
+	replaced := ""
 	for k := 0; k < n; k++ {
 		A := inputs[k]
+		if k == 1 && inSitu && replaceHook != nil && reuseMode != "same" && kept != nil {
+			// the caller keeps the results of the first call and puts nil / new
+			// matrices into the result fields of the InSitu struct
+			replaceHook(reuseMode)
+			replaced = reuseMode
+			cs.Cover("insitu-replaced:" + routine + "/" + reuseMode)
+		}
 		v, of, om := call(A, k, !inSitu)
+		if k == 0 && inSitu && v.Kind == "" && v.Skip == "" {
+			kept, keptSnap = lastOut, snapOut(lastOut)
+		}
+		if replaced != "" && v.Kind == "" && v.Skip == "" {
+			now := snapOut(kept)
+			for i := range now {
+				if fmt.Sprint(now[i]) != fmt.Sprint(keptSnap[i]) {
+					v = verdict{Kind: "earlier-result-overwritten", Detail: fmt.Sprintf("result object %d of the first call changed during the second call although the caller had set the result fields of the InSitu struct to %s", i, map[string]string{"nil": "nil", "new": "new matrices"}[replaced]),
+						Wit: map[string]any{"first result before": keptSnap[i], "first result after": now[i]}}
+					break
+				}
+			}
+			cs.Cover("judged-replaced:" + routine)
+		}
 		if vx.on {
 			cs.Cover("view:" + routine + "/input=" + vx.inputKind)
 			if k == 0 && inSitu {
@@ -91,6 +115,8 @@ func twoCalls(cs *fw.Case, routine string, t elemT, fine, coarse string, inputs 
 					v.Wit = map[string]any{}
 				}
 				v.Wit["views"] = map[string]any{"input": vx.inputKind, "InSitu": vx.kinds}
+			case replaced != "":
+				class += ",InSitu-result-buffers-replaced"
 			default:
 				class += []string{",InSitu-first-use", ",InSitu-reused"}[k]
 			}
@@ -100,6 +126,10 @@ func twoCalls(cs *fw.Case, routine string, t elemT, fine, coarse string, inputs 
 			opts = om
 		}
 		switch v.Kind {
+		case "earlier-result-overwritten":
+			// independent of the spectrum, of views and of the ComputeU/V flags
+			class = "InSitu-result-buffers-replaced"
+			opts = om + "+InSitu"
 		case "eigenpairs-misaligned":
 			class = "sort-permutation"
 		case "eigenvector-buffer-not-written":
@@ -165,6 +195,12 @@ func Run(c *fw.Ctx) {
 			coarse = "symmetric-indefinite-or-any"
 		}
 		is := newCholeskyInSitu(t, n, mode, cs)
+		replaceHook = func(m string) {
+			is.L = freshM(t, m, n, n)
+			if mode != "plain" {
+				is.D = freshM(t, m, n, n)
+			}
+		}
 		if sampleWorthy(map[string]any{"A": inputs[0].Rows()}) {
 			cs.Sample(map[string]any{"routine": "cholesky", "mode": mode, "type": t.Name, "class": fine, "A": inputs[0].Rows()})
 		}
@@ -189,6 +225,7 @@ func Run(c *fw.Ctx) {
 		inSitu := r.Chance(0.35)
 		inputs := []*la.Mat{genTall(fine, m, n, r), genTall(fine, m, n, r)}
 		is := newGramSchmidtInSitu(t, m, n)
+		replaceHook = func(md string) { is.Q, is.R = freshM(t, md, m, n), freshM(t, md, m, n) }
 		if sampleWorthy(map[string]any{"routine": "gramSchmidt", "type": t.Name, "class": fine, "A": inputs[0].Rows()}) {
 			cs.Sample(map[string]any{"routine": "gramSchmidt", "type": t.Name, "class": fine, "A": inputs[0].Rows()})
 		}
@@ -213,6 +250,7 @@ func Run(c *fw.Ctx) {
 		inSitu := r.Chance(0.35)
 		inputs := []*la.Mat{genTall(fine, m, n, r), genTall(fine, m, n, r)}
 		is := newBidiagInSitu(t, m, n)
+		replaceHook = func(md string) { is.A, is.U, is.V = freshM(t, md, m, n), freshM(t, md, m, m), freshM(t, md, n, n) }
 		if sampleWorthy(map[string]any{"routine": "householderBidiagonalization", "type": t.Name, "class": fine, "ComputeU": cu, "ComputeV": cv, "A": inputs[0].Rows()}) {
 			cs.Sample(map[string]any{"routine": "householderBidiagonalization", "type": t.Name, "class": fine, "ComputeU": cu, "ComputeV": cv, "A": inputs[0].Rows()})
 		}
@@ -236,6 +274,7 @@ func Run(c *fw.Ctx) {
 		inSitu := r.Chance(0.35)
 		inputs := []*la.Mat{genSym(fine, n, false, 1e6, r), genSym(fine, n, false, 1e6, r)}
 		is := newTridiagInSitu(t, n)
+		replaceHook = func(md string) { is.A, is.U = freshM(t, md, n, n), freshM(t, md, n, n) }
 		if sampleWorthy(map[string]any{"routine": "householderTridiagonalization", "type": t.Name, "class": fine, "ComputeU": cu, "A": inputs[0].Rows()}) {
 			cs.Sample(map[string]any{"routine": "householderTridiagonalization", "type": t.Name, "class": fine, "ComputeU": cu, "A": inputs[0].Rows()})
 		}
@@ -260,6 +299,7 @@ func Run(c *fw.Ctx) {
 		inSitu := r.Chance(0.35)
 		in1, in2 := genSquare(fine, n, r), genSquare(fine, n, r)
 		is := newHessenbergInSitu(t, n)
+		replaceHook = func(md string) { is.H, is.U = freshM(t, md, n, n), freshM(t, md, n, n) }
 		if sampleWorthy(map[string]any{"routine": "hessenbergReduction", "type": t.Name, "class": fine, "ComputeU": cu, "SetZero": setZero, "A": in1.A.Rows()}) {
 			cs.Sample(map[string]any{"routine": "hessenbergReduction", "type": t.Name, "class": fine, "ComputeU": cu, "SetZero": setZero, "A": in1.A.Rows()})
 		}
@@ -301,6 +341,7 @@ func Run(c *fw.Ctx) {
 			}
 		}
 		is := newQRInSitu(t, n)
+		replaceHook = func(md string) { is.H, is.U = freshM(t, md, n, n), freshM(t, md, n, n) }
 		cs.Cover("epsilon:qrAlgorithm/" + epsLabel(o.Eps))
 		if sampleWorthy(map[string]any{"routine": "qrAlgorithm", "type": t.Name, "class": fine, "opts": o.String(), "epsilon": epsLabel(o.Eps), "A": ins[0].A.Rows()}) {
 			cs.Sample(map[string]any{"routine": "qrAlgorithm", "type": t.Name, "class": fine, "opts": o.String(), "epsilon": epsLabel(o.Eps), "A": ins[0].A.Rows()})
@@ -344,6 +385,14 @@ func Run(c *fw.Ctx) {
 			}
 		}
 		is := newEigensystemInSitu(t, n)
+		replaceHook = func(md string) {
+			is.Eigenvalues = freshV(t, md, n)
+			if o.Vec {
+				is.Eigenvectors = freshM(t, md, n, n)
+			} else {
+				is.Eigenvectors = nil
+			}
+		}
 		if vx.on && !o.Vec && inSitu {
 			// an eigenvector buffer is supplied although no eigenvectors are requested
 			coarse = "unrequested-Eigenvectors-buffer"
@@ -376,6 +425,7 @@ func Run(c *fw.Ctx) {
 		inSitu := r.Chance(0.3)
 		inputs := []*la.Mat{genTall(fine, m, n, r), genTall(fine, m, n, r)}
 		is := newSVDInSitu(t, m, n)
+		replaceHook = func(md string) { is.A, is.U, is.V = freshM(t, md, m, n), freshM(t, md, m, m), freshM(t, md, n, n) }
 		es := epsLabel(epsOpt)
 		cs.Cover("epsilon:svd/" + es)
 		if sampleWorthy(map[string]any{"routine": "svd", "type": t.Name, "class": fine, "ComputeU": cu, "ComputeV": cv, "epsilon": es, "A": inputs[0].Rows()}) {
